@@ -100,4 +100,6 @@ ASpec == AInit /\ [][ANext]_<<lines, avars>>
 Outcome == IF failed THEN [k |-> "err"] ELSE [k |-> "ok", defs |-> defs]
 AlgoMeetsContract == phase = "done" => ImportContract(Files, F1, Outcome)
 Terminates == <>(phase = "done")
+(* liveness: with weak fairness on the algorithm's steps every run over every import graph (cycles, self-imports, diamonds) ends *)
+ALiveSpec == ASpec /\ WF_<<lines, avars>>(ANext)
 =============================================================================
